@@ -448,6 +448,9 @@ inductive Op where
   | mcomb (m m2 : Nat) (addNew : Bool)
   /- `purge_taxon_namespace()` of a tree / tree list / matrix: members of its namespace it does not refer to (`poll_taxa`) are removed.
      Documented to look at `self` only, so it is outside the ownership domain `valid` (see `purge_closed` for when it keeps closure) -/
+  /- `tl[a:b] = (t for t in trees)` - a ONE-SHOT iterable as the operand of a slice assignment: `for t in value: import(t)` consumes
+     it, so the trees are imported into the list's namespace and then `self._trees[a:b] = value` assigns nothing: the slice is deleted -/
+  | setslicegen (l a b : Nat) (ts : List Nat)
   | tpurge (t : Nat)
   | lpurge (l : Nat)
   | mpurge (m : Nat)
@@ -614,6 +617,9 @@ def step (s : Store) : Op → Store × Status
     if (s.mat m2).ns = (s.mat m).ns then
       (if addNew then { s with mat := upd s.mat m { (s.mat m) with keys := mergeKeys (s.mat m).keys (s.mat m2).keys } } else s, .ok)
     else (s, .nsIdentity)
+  | .setslicegen l a b ts =>
+    let s1 := importTrees s (s.tl l).ns .migrate ts
+    (setTrees s1 l (splice (s1.tl l).trees a b []), .ok)
   | .tpurge t => (purge s (s.tree t).ns ((s.tree t).taxa.filterMap id), .ok)
   | .lpurge l => (purge s (s.tl l).ns ((s.tl l).trees.flatMap (fun t => (s.tree t).taxa.filterMap id)), .ok)
   | .mpurge m => (purge s (s.mat m).ns (s.mat m).keys, .ok)
@@ -687,6 +693,7 @@ def idsOk (s : Store) : Op → Bool
   | .lassign l n _ => decide (l < s.nTl) && decide (n < s.nNs)
   | .massign m n _ => decide (m < s.nMat) && decide (n < s.nNs)
   | .mcomb m m2 _ => decide (m < s.nMat) && decide (m2 < s.nMat)
+  | .setslicegen l _ _ ts => decide (l < s.nTl) && ts.all (fun t => decide (t < s.nTree))
   | .tpurge t => decide (t < s.nTree)
   | .lpurge l => decide (l < s.nTl)
   | .mpurge m => decide (m < s.nMat)
@@ -744,6 +751,7 @@ def owner (s : Store) : Op → Bool
   | .insert l _ t _ => rebindOk s t (s.tl l).ns (some l) && decide (t < s.nTree)
   | .setitem l _ t => rebindOk s t (s.tl l).ns (some l) && decide (t < s.nTree)
   | .setslice l _ _ src => srcOk s (s.tl l).ns (some l) src
+  | .setslicegen l _ _ ts => srcOk s (s.tl l).ns (some l) (.trees ts)
   | .extend l src => srcOk s (s.tl l).ns (some l) src
   | .add l src => srcOk s (s.tl l).ns none src
   | .tmig t n _ => rebindOk s t n none
@@ -770,7 +778,7 @@ def owner (s : Store) : Op → Bool
 def inRange (s : Store) : Op → Bool
   | .append l _ _ | .insert l _ _ _ | .setitem l _ _ | .setslice l _ _ _ | .extend l _ | .add l _ | .read l _ | .newtree l _
   | .getslice l _ _ | .pop l _ | .remove l _ | .lclone l _ | .lmig l _ _ | .lrec l _ | .newtreeseed l _ | .readx l _ _
-  | .lassign l _ _ => decide (l < s.nTl)
+  | .lassign l _ _ | .setslicegen l _ _ _ => decide (l < s.nTl)
   | .dsaddN d _ | .dsaddL d _ | .dsaddM d _ | .dsnewlist d | .dsnewmat d | .dsnewns d | .dsattach d _ | .dsdetach d
   | .dsunify d _ | .dsread d _ _ _ => decide (d < s.nDs)
   | _ => true
